@@ -176,11 +176,14 @@ theorem parseDurLoop_fracGroup (fuel v d : Nat) (ds : Bytes) (u : UInt8) (unit :
   · have hex := fracTerm_exact (digitsVal ds 0) unit ds.length hk hflt hu0 hule
     have h3 : ¬ (v * unit + digitsVal ds 0 * (unit / 10 ^ ds.length) > 9223372036854775808) := by omega
     have h4 : ¬ (d + (v * unit + digitsVal ds 0 * (unit / 10 ^ ds.length)) > 9223372036854775808) := by omega
-    simp [hf0, hex, h3, h4]
+    have hmod : (d + (v * unit + digitsVal ds 0 * (unit / 10 ^ ds.length))) % 18446744073709551616
+        = d + (v * unit + digitsVal ds 0 * (unit / 10 ^ ds.length)) := Nat.mod_eq_of_lt (by omega)
+    simp [hf0, hex, h3, h4, hmod]
   · have hz : digitsVal ds 0 = 0 := by omega
     have h3 : ¬ (v * unit > 9223372036854775808) := by omega
     have h4 : ¬ (d + v * unit > 9223372036854775808) := by omega
-    simp [hz, h3, h4]
+    have hmod : (d + v * unit) % 18446744073709551616 = d + v * unit := Nat.mod_eq_of_lt (by omega)
+    simp [hz, h3, h4, hmod]
 
 /-- The float64 sum `duration.Seconds()` that `kfDuration` used before 7d50a89: whole seconds plus
 `float64(nsec)/1e9`, converted with `int64(·)`. -/
